@@ -1,130 +1,208 @@
 /-
-  Knx/Float.lean — IEEE-754 binary32/binary64 arithmetic as needed by knx/dpt, over core `Rat`:
-  finite values are exact rationals, every operation is "exact, then round to nearest even at the
-  format's precision" (subnormal range and overflow included for binary32).
+  Knx/Float.lean — IEEE-754 binary32 (and binary64 precision) arithmetic as needed by knx/dpt.
+
+  Finite values are dyadic numbers `m · 2^e` held as two integers, kept normalised (odd mantissa,
+  or 0·2^0), so structural equality is numerical equality.  Every operation is "exact, then round
+  to nearest even at the format's precision" (subnormal range and overflow included for
+  binary32).  Only integer operations the kernel evaluates natively are used, so that exhaustive
+  statements over 2^16 encodings can be checked by `decide +kernel`.
 -/
 namespace Knx.Fl
 
-/-- 2^e as a rational, any integer e -/
-def pow2 (e : Int) : Rat :=
-  if e ≥ 0 then ((2 ^ e.toNat : Nat) : Rat) else 1 / ((2 ^ (-e).toNat : Nat) : Rat)
+/-- `m · 2^e` -/
+structure Dy where
+  m : Int
+  e : Int
+  deriving DecidableEq, Repr, Inhabited
 
-/-- floor(log2 q) for q > 0 -/
-def ilog2 (q : Rat) : Int :=
-  let n := q.num.toNat
-  let d := q.den
-  let g : Int := (Nat.log2 n : Int) - (Nat.log2 d : Int)
-  -- 2^g ≤ q < 2^(g+2) roughly; fix up by comparison
-  if q < pow2 g then g - 1 else if q ≥ pow2 (g + 1) then g + 1 else g
+namespace Dy
 
-/-- round to nearest integer, ties to even -/
-def rne (q : Rat) : Int :=
-  let f := q.floor
-  let r := q - (f : Rat)
-  if r < 1 / 2 then f else if r > 1 / 2 then f + 1 else if f % 2 = 0 then f else f + 1
+def zero : Dy := ⟨0, 0⟩
 
-/-- round to nearest integer, ties away from zero (`math.Round`) -/
-def roundHalfAway (q : Rat) : Int :=
-  if q ≥ 0 then (q + 1 / 2).floor else -((-q + 1 / 2).floor)
+/-- number of trailing zero bits of a positive natural -/
+def tz (n : Nat) : Nat :=
+  if n = 0 then 0 else
+  let L := Nat.log2 n + 1
+  Nat.log2 (n &&& (2 ^ L - n))
+
+/-- normal form: odd mantissa, or zero with exponent 0 -/
+def norm (d : Dy) : Dy :=
+  if d.m = 0 then zero else
+  let t := tz d.m.natAbs
+  ⟨d.m / (2 ^ t : Nat), d.e + t⟩
+
+def ofInt (i : Int) : Dy := norm ⟨i, 0⟩
+
+def neg (a : Dy) : Dy := ⟨-a.m, a.e⟩
+
+def mul (a b : Dy) : Dy := norm ⟨a.m * b.m, a.e + b.e⟩
+
+/-- both mantissas at the smaller exponent -/
+def align (a b : Dy) : Int × Int × Int :=
+  let e := if a.e ≤ b.e then a.e else b.e
+  (a.m * (2 ^ (a.e - e).toNat : Nat), b.m * (2 ^ (b.e - e).toNat : Nat), e)
+
+def add (a b : Dy) : Dy :=
+  let (x, y, e) := align a b
+  norm ⟨x + y, e⟩
+
+def le (a b : Dy) : Bool :=
+  let (x, y, _) := align a b
+  decide (x ≤ y)
+
+def lt (a b : Dy) : Bool :=
+  let (x, y, _) := align a b
+  decide (x < y)
+
+def isNeg (a : Dy) : Bool := decide (a.m < 0)
+
+/-- bit length of a natural (0 for 0) -/
+def bitLen (n : Nat) : Nat := if n = 0 then 0 else Nat.log2 n + 1
+
+/-- round to `p` significant bits, the least significant bit's exponent never below `lsbMin`;
+    ties to even -/
+def round (p : Nat) (lsbMin : Int) (d : Dy) : Dy :=
+  if d.m = 0 then zero else
+  let a := d.m.natAbs
+  let msb : Int := d.e + (bitLen a : Int) - 1
+  let lsb0 : Int := msb - (p : Int) + 1
+  let lsb : Int := if lsb0 < lsbMin then lsbMin else lsb0
+  let s : Int := lsb - d.e
+  if s ≤ 0 then norm d else
+  let sN := s.toNat
+  let q := a / 2 ^ sN
+  let rem := a % 2 ^ sN
+  let half := 2 ^ (sN - 1)
+  let q' := if rem > half ∨ (rem = half ∧ q % 2 = 1) then q + 1 else q
+  norm ⟨if d.m < 0 then -(q' : Int) else (q' : Int), lsb⟩
+
+/-- `a / b` (b ≠ 0) with a sticky bit, precise enough to be rounded to `p` bits afterwards -/
+def divSticky (p : Nat) (a b : Dy) : Dy :=
+  let na := a.m.natAbs
+  let nb := b.m.natAbs
+  let k := (p + 3 + bitLen nb) - bitLen na
+  let num := na * 2 ^ k
+  let q := num / nb
+  let r := num % nb
+  let m' : Nat := 2 * q + (if r = 0 then 0 else 1)
+  let neg := (a.m < 0) != (b.m < 0)
+  ⟨if neg then -(m' : Int) else (m' : Int), a.e - b.e - (k : Int) - 1⟩
+
+/-- round to the nearest integer, ties away from zero (`math.Round`) -/
+def roundHalfAway (d : Dy) : Int :=
+  if d.e ≥ 0 then d.m * (2 ^ d.e.toNat : Nat) else
+  let s := (-d.e).toNat
+  let a := d.m.natAbs
+  let q : Int := ((a + 2 ^ (s - 1)) / 2 ^ s : Nat)
+  if d.m < 0 then -q else q
 
 /-- truncate toward zero (float → integer conversion) -/
-def trunc (q : Rat) : Int := if q ≥ 0 then q.floor else -((-q).floor)
+def trunc (d : Dy) : Int :=
+  if d.e ≥ 0 then d.m * (2 ^ d.e.toNat : Nat) else
+  let s := (-d.e).toNat
+  let q : Int := (d.m.natAbs / 2 ^ s : Nat)
+  if d.m < 0 then -q else q
 
-/-- round a rational to `p` significant bits with minimum exponent `emin` (the exponent of the
-    least significant bit never drops below `emin - p + 1`); result is a rational -/
-def roundPrec (p : Nat) (emin : Int) (q : Rat) : Rat :=
-  if q = 0 then 0 else
-  let a := if q < 0 then -q else q
-  let e := ilog2 a
-  let lsb : Int := (if e < emin then emin else e) - (p : Int) + 1
-  let m := rne (a / pow2 lsb)
-  let r := (m : Rat) * pow2 lsb
-  if q < 0 then -r else r
+end Dy
 
 /-- a binary32 value -/
 inductive F32 where
-  | fin (q : Rat)
+  | fin (d : Dy)
   | inf (neg : Bool)
   | nan
   deriving DecidableEq, Repr, Inhabited
 
-def maxF32 : Rat := ((2 ^ 24 - 1 : Nat) : Rat) * pow2 104   -- (2 - 2^-23) * 2^127
+/-- round an exact result to binary32 (overflow to infinity) -/
+def toF32 (d : Dy) : F32 :=
+  let r := Dy.round 24 (-149) d
+  if r.m = 0 then .fin r
+  else if r.e + (Dy.bitLen r.m.natAbs : Int) > 128 then .inf (decide (r.m < 0)) else .fin r
 
-/-- round an exact result to binary32 -/
-def toF32 (q : Rat) : F32 :=
-  let r := roundPrec 24 (-126) q
-  if r > maxF32 then .inf false else if r < -maxF32 then .inf true else .fin r
+/-- round an exact result to binary64 precision -/
+def toF64 (d : Dy) : Dy := Dy.round 53 (-1074) d
 
-/-- round an exact result to binary64 precision (range never matters here) -/
-def toF64 (q : Rat) : Rat := roundPrec 53 (-1022) q
+namespace F32
 
-def F32.mul : F32 → F32 → F32
-  | .fin a, .fin b => toF32 (a * b)
+def zero : F32 := .fin Dy.zero
+
+def mul : F32 → F32 → F32
+  | .fin a, .fin b => toF32 (a.mul b)
   | .nan, _ | _, .nan => .nan
-  | .inf s, .fin b => if b = 0 then .nan else .inf (s != decide (b < 0))
-  | .fin a, .inf s => if a = 0 then .nan else .inf (s != decide (a < 0))
+  | .inf s, .fin b => if b.m = 0 then .nan else .inf (s != b.isNeg)
+  | .fin a, .inf s => if a.m = 0 then .nan else .inf (s != a.isNeg)
   | .inf s, .inf t => .inf (s != t)
 
-def F32.div : F32 → F32 → F32
-  | .fin a, .fin b => if b = 0 then (if a = 0 then .nan else .inf (decide (a < 0))) else toF32 (a / b)
+def div : F32 → F32 → F32
+  | .fin a, .fin b =>
+    if b.m = 0 then (if a.m = 0 then .nan else .inf a.isNeg)
+    else if a.m = 0 then zero else toF32 (Dy.divSticky 24 a b)
   | .nan, _ | _, .nan => .nan
-  | .inf s, .fin b => .inf (s != decide (b < 0))
-  | .fin _, .inf _ => .fin 0
+  | .inf s, .fin b => .inf (s != b.isNeg)
+  | .fin _, .inf _ => zero
   | .inf _, .inf _ => .nan
 
-def F32.add : F32 → F32 → F32
-  | .fin a, .fin b => toF32 (a + b)
+def add : F32 → F32 → F32
+  | .fin a, .fin b => toF32 (a.add b)
   | .nan, _ | _, .nan => .nan
   | .inf s, .fin _ => .inf s
   | .fin _, .inf s => .inf s
   | .inf s, .inf t => if s = t then .inf s else .nan
 
 /-- `x <= y` (false when either is NaN) -/
-def F32.le : F32 → F32 → Bool
-  | .fin a, .fin b => decide (a ≤ b)
+def le : F32 → F32 → Bool
+  | .fin a, .fin b => a.le b
   | .nan, _ | _, .nan => false
   | .inf s, .inf t => s || !t
   | .inf s, .fin _ => s
   | .fin _, .inf t => !t
 
-def F32.lt (x y : F32) : Bool :=
-  match x, y with
+/-- `x < y` (false when either is NaN) -/
+def lt : F32 → F32 → Bool
+  | .fin a, .fin b => a.lt b
   | .nan, _ | _, .nan => false
-  | _, _ => !(F32.le y x)
+  | .inf s, .inf t => s && !t
+  | .inf s, .fin _ => s
+  | .fin _, .inf t => !t
 
 /-- decode a bit pattern -/
-def F32.ofBits (b : BitVec 32) : F32 :=
+def ofBits (b : BitVec 32) : F32 :=
   let sign := b.getLsbD 31
   let ex := ((b >>> 23) &&& 0xFF).toNat
   let man := (b &&& 0x7FFFFF).toNat
   if ex = 255 then (if man = 0 then .inf sign else .nan)
   else
-    let mag : Rat :=
-      if ex = 0 then (man : Rat) * pow2 (-149)
-      else ((man + 2 ^ 23 : Nat) : Rat) * pow2 ((ex : Int) - 150)
-    .fin (if sign then -mag else mag)
+    let m : Nat := if ex = 0 then man else man + 2 ^ 23
+    let e : Int := if ex = 0 then -149 else (ex : Int) - 150
+    .fin (Dy.norm ⟨if sign then -(m : Int) else (m : Int), e⟩)
 
-/-- encode a finite, exactly representable value (as produced by `toF32`); zero is +0 -/
-def F32.toBits : F32 → BitVec 32
+/-- encode a value (finite ones are exactly representable when they come from `toF32`);
+    zero is +0 -/
+def toBits : F32 → BitVec 32
   | .nan => 0x7FC00000
   | .inf false => 0x7F800000
   | .inf true => 0xFF800000
-  | .fin q =>
-    if q = 0 then 0 else
-    let a := if q < 0 then -q else q
-    let s : Nat := if q < 0 then 1 else 0
-    let e := ilog2 a
-    if e < -126 then
-      let man := (a / pow2 (-149)).floor.toNat
+  | .fin d =>
+    if d.m = 0 then 0 else
+    let a := d.m.natAbs
+    let s : Nat := if d.m < 0 then 1 else 0
+    let msb : Int := d.e + (Dy.bitLen a : Int) - 1
+    if msb < -126 then
+      -- subnormal: value = man · 2^-149
+      let man := a * 2 ^ (d.e + 149).toNat
       BitVec.ofNat 32 (s * 2 ^ 31 + man)
     else
-      let man := (a / pow2 (e - 23)).floor.toNat - 2 ^ 23
-      BitVec.ofNat 32 (s * 2 ^ 31 + (e + 127).toNat * 2 ^ 23 + man)
+      -- normal: 24-bit significand at exponent msb-23
+      let sh := (d.e - (msb - 23)).toNat
+      let sig := a * 2 ^ sh
+      BitVec.ofNat 32 (s * 2 ^ 31 + (msb + 127).toNat * 2 ^ 23 + (sig - 2 ^ 23))
 
 /-- an integer as binary32 (`float32(m)`) -/
-def F32.ofInt (i : Int) : F32 := toF32 (i : Rat)
+def ofInt (i : Int) : F32 := toF32 (Dy.ofInt i)
 
 /-- a decimal source literal `num / den` converted to binary32 -/
-def F32.ofLit (num : Int) (den : Nat) : F32 := toF32 ((num : Rat) / (den : Rat))
+def ofLit (num : Int) (den : Nat) : F32 :=
+  if num = 0 then zero else toF32 (Dy.divSticky 24 (Dy.ofInt num) (Dy.ofInt den))
+
+end F32
 
 end Knx.Fl
